@@ -61,10 +61,12 @@ K8sAllows(c, U, f) ==
 
 (* ------------------------------------------------------------------ galaxy's compilation scheme *)
 \* departures of the scheme from the API semantics (each one a class of its own):
-AllDevs == {"podPeerClusterWide",     \* a podSelector peer selects pods of every namespace, not of the policy's
-            "nsAndPodPeer",           \* a peer with namespaceSelector and podSelector is treated as its podSelector alone
-            "emptyPeersDeny",         \* a rule without peers (= any source/destination) compiles to no iptables rule
-            "sharedPolicyChain",      \* one chain per policy holds ingress and egress rules and is consulted for both directions
+\* (two more switches exist below for departures the code no longer has -- repaired by a fix: commit --
+\*  "podPeerClusterWide": a podSelector peer selects pods of every namespace, not of the policy's;
+\*  "nsAndPodPeer": a peer with namespaceSelector and podSelector is treated as its podSelector alone;
+\*  "emptyPeersDeny": a rule without peers (= any source/destination) compiles to no iptables rule.
+\*  A change that brings one of them back makes the code depart from Derived: an unexplained violation.)
+AllDevs == {            "sharedPolicyChain",      \* one chain per policy holds ingress and egress rules and is consulted for both directions
             "egressAcceptSkipsIngress"} \* an ACCEPT taken in the sender's (egress) chain ends the traversal: the receiver's ingress rules are not consulted
 SetName(kind, i, q) == kind \o ":" \o ToString(i) \o ":" \o q
 IpSetName(q) == "ip:" \o q
@@ -237,19 +239,21 @@ DesignKernel(c, U, devs) ==
     [sets |-> D.sets, chains |-> D.chains @@ ("FORWARD" :> <<R("", "", "all", <<>>, <<>>, FALSE, "egress"), R("", "", "all", <<>>, <<>>, FALSE, "ingress")>>)]
 \* the same design with the two structural departures repaired: each direction consults only its own rules, and both the
 \* sender's and the receiver's chains are consulted
-DirectionalAllows(c, U, f, devs) ==
-    LET K == DesignKernel(c, U, devs)
-        lineOK(line) == RuleMatches(K, U, line, f)
+\* (K is DesignKernel(c, U, devs), passed in so that callers evaluating many flows compute it once)
+DirectionalAllowsK(K, c, U, f, devs) ==
+    LET lineOK(line) == RuleMatches(K, U, line, f)
         polOK(q, dir) == LET pol == c.pols[q]
                              rules == IF dir = "in" THEN pol.ingress ELSE pol.egress IN
                          \E i \in 1..Len(rules) : \E j \in 1..Len(RuleLines(q, i - 1, rules[i], dir, devs)) : lineOK(RuleLines(q, i - 1, rules[i], dir, devs)[j])
         egOK == \A p \in LocalAt(c, f.src) : EgPols(c, p) = {} \/ \E q \in EgPols(c, p) : polOK(q, "eg")
         inOK == \A p \in LocalAt(c, f.dst) : InPols(c, p) = {} \/ \E q \in InPols(c, p) : polOK(q, "in")
     IN egOK /\ inOK
+DirectionalAllows(c, U, f, devs) == DirectionalAllowsK(DesignKernel(c, U, devs), c, U, f, devs)
 \* verdict of the design with the departures in devs
-DesignAllows(c, U, f, devs) ==
-    IF {"sharedPolicyChain", "egressAcceptSkipsIngress"} \subseteq devs THEN Walk(DesignKernel(c, U, devs), U, f)
-    ELSE DirectionalAllows(c, U, f, devs)
+DesignAllowsK(K, c, U, f, devs) ==
+    IF {"sharedPolicyChain", "egressAcceptSkipsIngress"} \subseteq devs THEN Walk(K, U, f)
+    ELSE DirectionalAllowsK(K, c, U, f, devs)
+DesignAllows(c, U, f, devs) == DesignAllowsK(DesignKernel(c, U, devs), c, U, f, devs)
 \* the classes of departure that explain why the design's verdict for f differs from the API's: removing the class alone
 \* (or the two structural ones together) restores the API verdict
 Structural == {"sharedPolicyChain", "egressAcceptSkipsIngress"}
